@@ -25,6 +25,7 @@ type fakeServer struct {
 	pb.UnimplementedGNMIServer
 	mu      sync.Mutex
 	scripts map[string][]fakeSession // per target
+	custom  map[string][]*pb.SubscribeResponse // per target: raw responses, then EOF (C12)
 	opens   map[string]int
 	onEvent func(target, kind string, sess, id int)
 	srv     *grpc.Server
@@ -36,7 +37,7 @@ func newFakeServer(onEvent func(target, kind string, sess, id int)) (*fakeServer
 	if err != nil {
 		return nil, err
 	}
-	f := &fakeServer{scripts: map[string][]fakeSession{}, opens: map[string]int{}, onEvent: onEvent, addr: lis.Addr().String()}
+	f := &fakeServer{scripts: map[string][]fakeSession{}, custom: map[string][]*pb.SubscribeResponse{}, opens: map[string]int{}, onEvent: onEvent, addr: lis.Addr().String()}
 	f.srv = grpc.NewServer()
 	pb.RegisterGNMIServer(f.srv, f)
 	go f.srv.Serve(lis)
@@ -58,6 +59,15 @@ func (f *fakeServer) Subscribe(stream pb.GNMI_SubscribeServer) error {
 	}
 	target := req.GetSubscribe().GetPrefix().GetTarget()
 	f.mu.Lock()
+	if rs, ok := f.custom[target]; ok {
+		f.mu.Unlock()
+		for _, r := range rs {
+			if err := stream.Send(r); err != nil {
+				return err
+			}
+		}
+		return nil
+	}
 	f.opens[target]++
 	n := f.opens[target]
 	var sess fakeSession
